@@ -423,12 +423,12 @@ def prove_pairs(chk, cname, pairs, facts, replay_for, key_for, sample=None):
 def _translator_validation(chk, cname, pairs, replay_for):
     """Serval-style validation of the encoding: the harness is re-run on plain floats at the run's witness point (real code,
     no proxies, no stubs) and every implementation value must agree with the witness carried by the corresponding z3 term.
-    Done for the first few cases of each check (3 quick / 25 thorough); a mismatch is a harness error (inconclusive)."""
+    Done for the first cases of each check (10 quick / 100 thorough); a mismatch, or a float run that raises, is inconclusive (exit 2)."""
     from . import real as _real
     from . import stubs as _stubs
     from .real import S
 
-    limit = 3 if chk.tier == "quick" else 25
+    limit = 10 if chk.tier == "quick" else 100
     if getattr(chk, "_nval", 0) >= limit or not pairs:
         return
     try:
@@ -446,7 +446,10 @@ def _translator_validation(chk, cname, pairs, replay_for):
         with _stubs.suspended():
             fpairs = fn(rep[1])
     except Exception as e:  # noqa
-        chk.notes.append(f"translator validation could not run for {cname}: {e!r}")
+        # the symbolic run of this case returned values, the float run of the same harness on the real code raises: either the proxies
+        # hide an error that only real floats / NumPy scalars trigger, or the harness is wrong -- never a pass
+        chk.inconclusive.append(f"translator validation: {cname}: float run of the real code raises {type(e).__name__}: {str(e)[:120]} "
+                                f"where the symbolic run returned values")
         return
     finally:
         _real._CUR[0] = prev_ctx
